@@ -42,6 +42,7 @@ def main():
     from vmon.util import jsonable
 
     t0 = time.time()
+    c0 = time.process_time()
     signal.signal(signal.SIGALRM, _alarm)
     case_timeout = int(mod.CONFIG[a.tier].get("case_timeout_s", 60))
     out = open(a.out, "w")
@@ -60,7 +61,9 @@ def main():
     skipped = 0
     ran = 0
     for i, case in it:
-        if time.time() - t0 > a.budget and not a.replay:
+        # the budget is counted in this worker's CPU time, so the set of cases explored does not depend on how loaded the
+        # machine is (a wall-clock budget made reach floors fail when several checks ran side by side); wall time is only a backstop
+        if not a.replay and (time.process_time() - c0 > a.budget or time.time() - t0 > 6 * a.budget + 120):
             skipped += 1
             continue
         signal.alarm(case_timeout)
